@@ -1,5 +1,8 @@
 //! Monotonic simulation time.
+#[cfg(not(nexosim_verif))]
 use std::sync::atomic::{AtomicI64, AtomicU32, Ordering};
+#[cfg(nexosim_verif)]
+use crate::verif::sync::atomic::{AtomicI64, AtomicU32, Ordering};
 
 use super::MonotonicTime;
 
@@ -41,5 +44,10 @@ impl TearableAtomic for TearableAtomicTime {
         // a `MonotonicTime`, even if the store is torn.
         self.secs.store(value.as_secs(), Ordering::Relaxed);
         self.nanos.store(value.subsec_nanos(), Ordering::Relaxed);
+        #[cfg(nexosim_verif)]
+        crate::verif::trace(crate::verif::TraceEvent::TimeWritten(
+            value.as_secs(),
+            value.subsec_nanos(),
+        ));
     }
 }
